@@ -343,6 +343,46 @@ class Fn:
             return [self.tu.by_id[fid]]
         return []
 
+    def deep_calls(self, pred, depth=2, _seen=None, _top=None):
+        """Calls satisfying pred(fn, node), in this function and in the library helpers it calls (members of the same class or free
+        functions of the library, `depth` levels down): [(node in self through which it is reached, function holding it, node there)].
+        Lets "exactly one call of X" rules survive the extraction of a small private helper."""
+        _seen = _seen if _seen is not None else set()
+        out = []
+        if self.id in _seen:
+            return out
+        _seen.add(self.id)
+        for n in self.calls() + self.constructs():
+            top = _top if _top is not None else n
+            if pred(self, n):
+                out.append((top, self, n))
+            elif depth > 0:
+                for g in self.callee_fns(n):
+                    if g.kind != 'lambda' and g.id != self.id and (g.d.get('lib', True)):
+                        out += g.deep_calls(pred, depth - 1, _seen, top)
+        return out
+
+    def functor_body(self, n):
+        """The function that runs when the callable expression n is called: a lambda's call operator, or the operator() of a class
+        defined in the library / witness whose object n constructs or denotes (named functor instead of a lambda)."""
+        x = self.value_source(n)
+        o = self.nodes[x]
+        if o['cls'] == 'LambdaExpr':
+            return self.tu.by_id.get(o.get('fid'))
+        # a copy / move of a temporary functor: look at the functor's own type
+        for _ in range(3):
+            if self.is_construct(x) and (self.callee(x) or {}).get('ctor') in ('copy', 'move') and self.nodes[x].get('args'):
+                x = self.strip_all_casts(self.nodes[x]['args'][0])
+            else:
+                break
+        t = self.ntype(x) if hasattr(self, 'ntype') else None
+        recq = (t or {}).get('recq') or (self.tu.type((t or {}).get('base')) or {}).get('recq') if t else None
+        if recq:
+            cands = [g for g in self.tu.fns if g.clsq == recq and g.name == 'operator()']
+            if len(cands) == 1:
+                return cands[0]
+        return None
+
     # ---- variables --------------------------------------------------------------------
     def var_decls(self):
         """var id -> dict(name,t,init,node) for locals declared in this function."""
